@@ -109,6 +109,13 @@ def grammar_cases(rng: random.Random) -> List[Dict[str, Any]]:
     add('beyond-memory', pre + f'segment {(1 << w) - dw}\n;\n;\n', ['segment', 'space', 'memory'], w=w)
     if w <= 16:
         add('beyond-memory', '\n'.join([';$'] * ((1 << w) // dw + 2)) + '\n', ['space', 'memory', 'segment'], w=w)
+        # astronomically many repetitions of something that emits code: at a small width the memory is full after at most
+        # 2^w/2w ops, so the assembler is expected to stop there (bounded work: the hang verdict applies)
+        body = rng.choice(['5;8', ';', 'wflip 64, 3', '5;8\n  ;', 'pad 2\n  1;2'])
+        count = rng.choice(['1<<40', '1<<200', str(10 ** 30), '(1<<64)-1'])
+        add('beyond-memory', f'def tb_{lbl} {{\n  {body}\n}}\n' + pre + f'rep({count}, i) tb_{lbl}\n', ['space', 'memory'], w=w, bounded=True)
+        add('beyond-memory', f'def tc_{lbl} k {{\n  {body}\n  ;k-k\n}}\n' + pre + f'rep({count}, i) tc_{lbl} i\n', ['space', 'memory'], w=w, bounded=True)
+        add('beyond-memory', pre + f'pad {count}\n', ['space', 'memory', 'pad'], w=w, bounded=True)
     # out-of-range values
     for text, m in ((';0-1', ['-1', '0x1']), (f';1<<{w}', [hex(1 << w), str(1 << w)]), (f'1<<{w};', [hex(1 << w), str(1 << w)]),
                     ('0-5;', ['-5', '0x5']), (f'wflip 0, 1<<{w}', ['space', hex(1 << w)]), (f'wflip 0-{w}, 1', [f'-{w}', hex(w)]),
@@ -333,7 +340,7 @@ class Runner:
             self.count('timeouts_on_size_amplifying_mutants')
         elif outcome == 'catch-all' and amplifying and cls.startswith(('mutation/', 'stl/')) and isinstance(exc.__cause__ if exc else None, MemoryError):
             self.count('memory_exhaustion_on_size_amplifying_mutants')
-        elif (outcome == 'timeout' and _FIRED[:1] == ['cpu'] and not amplifying and len(text_probe) < 20000
+        elif (outcome == 'timeout' and _FIRED[:1] == ['cpu'] and (not amplifying or case.get('bounded')) and len(text_probe) < 20000
               and not cls.startswith(('mutation/', 'stl/')) and cls != 'arithmetic-blowup'):
             # "never hangs": a source of a few lines, without any construct that can ask for a large layout, kept assemble() busy
             # for `watchdog` seconds of CPU time (ordinary cases of these classes take milliseconds)
